@@ -105,7 +105,7 @@ MCExpand(r, ps, ok) ==
 MCExpire == DoExpire /\ Step([a |-> "Expire"])
 MCLose == DoLoseControllership /\ Step([a |-> "Lose"])
 MCRemove == pend = <<>> /\ DoRemoveStream /\ Step([a |-> "Remove"])
-MCRebuild == pend = <<>> /\ DoRebuild /\ Step([a |-> "Rebuild"])
+MCRebuild(how) == pend = <<>> /\ DoRebuild(how) /\ Step([a |-> "Rebuild", how |-> how])
 
 MCNext ==
   \/ \E w \in Reporters, ps \in PairSels, pref \in Replicas \cup {"none"}, ok \in BOOLEAN : MCReport(w, ps, pref, ok)
@@ -118,7 +118,7 @@ MCNext ==
   \/ MCExpire
   \/ MCLose
   \/ MCRemove
-  \/ MCRebuild
+  \/ \E how \in {"resume", "restore"} : MCRebuild(how)
 
 MCSpec == MCInit /\ [][MCNext]_mcvars
 
